@@ -23,7 +23,12 @@ func main() {
 	seed := flag.Int64("seed", 1, "random seed")
 	cfgJSON := flag.String("cfg", "", "exploration configuration (json)")
 	replay := flag.String("replay", "", "json {scenario, choices} to re-execute")
+	memstore := flag.Int("memstore", 0, "explore this many schedules of racing Store calls on the in-memory metastore (C13)")
 	flag.Parse()
+	if *memstore > 0 {
+		die(concdrv.MemStoreRace(3, *memstore, 2, *seed, *trace, *out))
+		return
+	}
 	if *replay != "" {
 		var r struct {
 			Scenario concdrv.Scenario `json:"scenario"`
